@@ -76,7 +76,7 @@ func init() {
 			"(helper-contract) each db.Helper implementation commits the batch only on the fn(batch)==nil branch and commits the very batch it passed; " +
 			"(direct-writers) the set of functions in blockchain/core/state/trie packages that write through the store directly equals a frozen, hand-confirmed table; " +
 			"(commit-failure-memory) long-lived in-memory objects mutated inside an atomic closure are re-synchronised when the enclosing commit fails; " +
-			"(height-in-batch) the chain-height key is written/deleted only by writeBlockContent/deleteBlockContent. " +
+			"(memory-mutation-last) the step that mutates in-memory state is the last fallible step of its closure; (height-in-batch) the chain-height key is written/deleted only by writeBlockContent/deleteBlockContent; (prune-resume) the multi-commit phase of pruning never deletes a bucket that it, or the resume probe, reads. " +
 			"Not decided: Pebble's own atomicity/durability, the DB image after a crash between the several batches of a prune, recomputed state commitments."
 		ci := p.caps()
 		if ci == nil {
@@ -198,6 +198,19 @@ func init() {
 
 		// ---- commit-failure-memory ----
 		checkCommitFailureMemory(c, ci, roots, nilCfg)
+		// ---- memory-mutation-last ----
+		var real []AtomicRoot
+		for _, r := range roots {
+			if r.Closure != nil && !p.InFixture(r.Site.Pos()) {
+				real = append(real, r)
+			}
+		}
+		checkMemoryMutationLast(c, real, nilCfg)
+		// ---- height-in-batch, prune-resume ----
+		rs := p.newResolver()
+		ai := p.attrIndex(rs, ci)
+		checkHeightInBatch(c, ai)
+		c16ResumeSafe(c, "prune-resume", ci, rs)
 	})
 }
 
